@@ -67,6 +67,15 @@ REQUIRE = {
     "judged_with:Edit-masked-wide": 2,
     "judged_with:Edit-multiline": 3,
     "judged_with:Edit-long-caption": 8,
+    # round 6: zero-width columns, Overlays used as flow / fixed widgets, fixed Padding with a given width, replaced decoration children
+    "judged_with:Columns-zero-width-column": 20,
+    "judged_with:Columns-interior-zero-width-column-with-dividers": 8,
+    "judged_root:Overlay:flow": 8,
+    "judged_root:Overlay:fixed": 4,
+    "judged_with:Padding-given-width": 20,
+    "judged_with:Padding-given-width-as-fixed": 8,
+    "judged_root:Padding:fixed": 8,
+    "judged_with:decoration-child-replaced": 10,
     # round 5: spy leaves whose geometry depends on the focus ARGUMENT
     "judged_with:focus-dependent-rows": 30,
     "judged_with:focus-dependent-width": 15,
@@ -156,6 +165,14 @@ ASSUMES = [
     "disappears when those leaves are made ordinary carries '|focus-dependent-geometry' (kind collapsed to its family)",
     "size histories may contain key presses and button-1 presses at the other size; these legitimately change what is drawn, so the tree "
     "is observed afresh at the probe size afterwards (what carries over is widget state such as ListBox offsets, not canvases)",
+    "round 6: 'Empty' leaves (urwid.Text(\"\"), packing to 0 columns) give Columns hidden zero-width columns; they draw nothing and are not "
+    "judged leaves. Leaves of an Overlay's backdrop whose rectangle cannot be read off the canvas (covered by the top widget) no longer "
+    "disqualify the case, they are just not judged. Decorations may be built around a non-selectable placeholder and get their real child "
+    "by assigning original_widget ('swap'). Signature classifier: a violation that the shrinking run reproduces and that disappears when "
+    "(a) focus-dependent leaves are made ordinary, (b) assigned children are passed to the constructor instead, (c) zero-width columns "
+    "are removed, (d) the size history / before-render mode is dropped, is tagged |focus-dependent-geometry, |child-replaced, "
+    "|zero-width-column, |after-other-size / |before-render (first that applies) with its kind collapsed to the family; everything "
+    "blamed on a fixed-size Padding with a given width is filed under |given-width-as-fixed",
     "a fixed spy raises ValueError when handed a non-() size, like urwid's own fixed-only widgets raise WidgetError",
     "size histories: the fit precondition is established at the probe size S only; the other sizes need not fit and exceptions raised while "
     "touching them are counted, not judged; if rendering at S after the history shows another picture than the canvas kept for S (scroll "
@@ -183,6 +200,7 @@ class Obs:
         self.sizes = {}  # id(widget) -> size it was rendered at (last)
         self.dims = {}  # id(widget) -> (cols, rows) of the canvas it produced
         self.rows_disagree = False
+        self.occluded = set()  # leaves of an Overlay's backdrop whose rectangle cannot be read off the canvas: not judged
         self.after_history = False  # probing follows a history of touches at other sizes (cache enabled)
         self.keep = None
         self.canvas = None  # the root canvas for this size ("what is on screen"); keeping it keeps the cache entries alive
@@ -322,6 +340,21 @@ def observe(root, size, log, focus=True) -> Obs:
             where.setdefault(ch, []).append((x, y))
     for lf in leaves:
         cells = where.get(lf.glyph)
+        if under_overlay_bottom(lf):
+            # an Overlay's backdrop may be covered by the top widget (occluded by design, not clipped for lack of space): such a
+            # leaf is simply not judged unless its rectangle can still be read off the canvas
+            ok_here = bool(cells) and lf.sid in rsizes and len(rsizes[lf.sid]) == 1
+            if ok_here and lf.kind == "spy":
+                cols, rows = lf.w.last_dims
+                xs = [c[0] for c in cells]
+                ys = [c[1] for c in cells]
+                ok_here = (max(xs) - min(xs) + 1, max(ys) - min(ys) + 1) == (cols, rows)
+            elif ok_here:
+                r_ = lf.recipe
+                ok_here = len(cells) == r_["len"] + (r_.get("cap", 0) if lf.kind == "Edit" else 0)
+            if not ok_here:
+                o.occluded.add(lf.sid)
+                continue
         if not cells or lf.sid not in rsizes:
             o.reason = "leaf_hidden"
             return o
@@ -569,7 +602,9 @@ class Case:
         self.cold = bool(hist and hist.get("cold"))
         self.hist = None if self.cold else hist
         self.focus = bool(focus)
-        self.key = json.dumps(strip(recipe), sort_keys=True)  # sampling must not depend on generator-only steering keys
+        # sampling must not depend on generator-only steering keys, nor on the options that the signature classifier switches off
+        # to see whether a violation needs them (focus-dependent geometry, replaced children)
+        self.key = json.dumps(strip(neutral(without_swap(recipe))), sort_keys=True)
         self.ctx = ctx
         self.recipe = recipe
         self.size = tuple(size)
@@ -857,7 +892,9 @@ class Case:
             return
         ctx.count("c4_press_cursor_evals")
         # (not in trees with focus-dependent geometry: the press may move the focus and re-lay the Edit out at another width)
-        if lf.kind == "Edit" and handled and handled[-1] is True and not self.fdep and tuple(o3.rects[lf.sid]) == tuple(of.rects[lf.sid]):
+        # (and only if the Edit was handed the size it had been rendered at -- otherwise the container above is at fault, see c2b)
+        same_size = len(entries) == 1 and tuple(entries[0][2]) == tuple(lf.w.last_size or ())
+        if lf.kind == "Edit" and handled and handled[-1] is True and not self.fdep and same_size and tuple(o3.rects[lf.sid]) == tuple(of.rects[lf.sid]):
             # a press an Edit reports as handled is a move_cursor_to_coords to that cell: the cursor must be on the pressed row
             ctx.count("c4_edit_press_row_evals")
             if own[1] != pressed_local[1]:
@@ -1234,6 +1271,57 @@ def neutral(recipe):
     return recipe
 
 
+def without_fixedw_padding(recipe):
+    """the same recipe with every Padding(width=n) meant for size () replaced by a fixed-size Columns([('given', n, child)])"""
+    if isinstance(recipe, list):
+        return [without_fixedw_padding(v) for v in recipe]
+    if not isinstance(recipe, dict):
+        return recipe
+    r = {k: without_fixedw_padding(v) for k, v in recipe.items()}
+    if r.get("k") == "Padding" and r.get("fixedw"):
+        return {"k": "Columns", "items": [[["given", r["width"]], r["c"]]], "div": 0, "focus": 0, "box": [], "minw": 1}
+    return r
+
+
+def swapped_kinds(recipe, out=None):
+    out = set() if out is None else out
+    if isinstance(recipe, dict):
+        if recipe.get("swap"):
+            out.add(recipe["k"])
+        for v in recipe.values():
+            swapped_kinds(v, out)
+    elif isinstance(recipe, list):
+        for v in recipe:
+            swapped_kinds(v, out)
+    return out
+
+
+def without_swap(recipe):
+    if isinstance(recipe, dict):
+        return {k: without_swap(v) for k, v in recipe.items() if k != "swap"}
+    if isinstance(recipe, list):
+        return [without_swap(v) for v in recipe]
+    return recipe
+
+
+def without_empty_columns(recipe):
+    """the same recipe with the zero-width ('Empty') columns of every Columns removed (focus / box_columns indexes adjusted)"""
+    if isinstance(recipe, list):
+        return [without_empty_columns(v) for v in recipe]
+    if not isinstance(recipe, dict):
+        return recipe
+    r = {k: without_empty_columns(v) for k, v in recipe.items()}
+    if r.get("k") == "Columns":
+        keep = [i for i, (_o, c) in enumerate(r["items"]) if c.get("k") != "Empty"]
+        if len(keep) != len(r["items"]) and keep:
+            new_index = {old: new for new, old in enumerate(keep)}
+            r["items"] = [r["items"][i] for i in keep]
+            if r.get("focus") is not None:
+                r["focus"] = new_index.get(r["focus"], 0)
+            r["box"] = [new_index[b] for b in r.get("box", []) if b in new_index]
+    return r
+
+
 def strip(recipe):
     """drop steering keys"""
     if isinstance(recipe, dict):
@@ -1480,14 +1568,52 @@ def report(ctx, recipe, size, viols, focus=True, hist=None):
         clause = best["clause"]
         path, mode = best["path"], best.get("mode") or mode_of(s)
         has_fdep = best["clause"] in ("c2", "c2b", "c3") and bool({"focus-dependent-rows", "focus-dependent-width"} & T.kinds_of(r))
-        if has_fdep and not run_same(q, neutral(r), s, focus, hist, key):
-            # needs a leaf whose geometry depends on the focus argument (the same tree and history with those leaves made ordinary is fine)
-            stale = "|focus-dependent-geometry"
-        elif hist is not None and not run_same(q, r, s, focus, None, key):
-            # the same tree probed right after a fresh render does not show it: the per-size state left by the history is needed
-            stale = "|before-render" if hist.get("cold") else "|after-other-size"
+        has_zero = best["clause"] in ("c2", "c2b", "c3") and "Columns-zero-width-column" in T.kinds_of(r)
+        base = run_same(q, r, s, focus, hist, key)  # the classifier below is only meaningful if the shrinking run reproduces it at all
+        kinds_r = T.kinds_of(r)
+        stale = ""
+        if not base:
+            ctx.count("violations_not_reproduced_by_classifier_run")
         else:
-            stale = ""
+            # which unusual ingredient does the violation need?  Each candidate is switched off on its own; a violation that vanishes
+            # under several switches (switching one off also perturbs the sequence of probes) goes to the more specific structural one
+            needs = []
+            if "Padding-given-width-as-fixed" in kinds_r and not run_same(q, without_fixedw_padding(r), s, focus, hist, key):
+                needs.append("|given-width-as-fixed")  # Padding(width=n) at size (): fine with a fixed Columns([('given', n, child)]) instead
+            if "decoration-child-replaced" in kinds_r and not run_same(q, without_swap(r), s, focus, hist, key):
+                needs.append("|child-replaced")  # original_widget assigned after construction: fine when passed to the constructor
+            if has_zero and not run_same(q, without_empty_columns(r), s, focus, hist, key):
+                needs.append("|zero-width-column")  # fine without the hidden columns
+            if has_fdep and not run_same(q, neutral(r), s, focus, hist, key):
+                needs.append("|focus-dependent-geometry")  # fine with those leaves made ordinary
+            if not needs:
+                # two known ingredients may each be sufficient on their own: switch all candidates off together
+                cands, rr = [], r
+                if "Padding-given-width-as-fixed" in kinds_r:
+                    cands.append("|given-width-as-fixed")
+                    rr = without_fixedw_padding(rr)
+                if "decoration-child-replaced" in kinds_r:
+                    cands.append("|child-replaced")
+                    rr = without_swap(rr)
+                if has_zero:
+                    cands.append("|zero-width-column")
+                    rr = without_empty_columns(rr)
+                if has_fdep:
+                    cands.append("|focus-dependent-geometry")
+                    rr = neutral(rr)
+                if len(cands) > 1 and not run_same(q, rr, s, focus, hist, key):
+                    needs = cands
+                    ctx.count("violations_with_several_sufficient_ingredients")
+            if needs:
+                stale = needs[0]
+                if len(needs) > 1:
+                    ctx.count("violations_classified_with_several_candidate_ingredients")
+                if stale == "|focus-dependent-geometry" and hist is not None and not run_same(q, r, s, focus, None, key):
+                    # needs BOTH the focus-dependent leaf (e.g. to make the content overflow at the other size) and the history
+                    stale = ("|before-render" if hist.get("cold") else "|after-other-size") + "+focus-dependent-geometry"
+            elif hist is not None and not run_same(q, r, s, focus, None, key):
+                # the same tree probed right after a fresh render does not show it: the per-size state left by the history is needed
+                stale = "|before-render" if hist.get("cold") else "|after-other-size"
         culprit = blame(r, s, focus, best, hist if stale else None)
         if culprit is not None:
             path, mode = culprit
@@ -1495,10 +1621,25 @@ def report(ctx, recipe, size, viols, focus=True, hist=None):
             # the state left behind belongs to the container: the leaf class and press-1 vs other events add nothing
             path = path.split(">")[0]
             clause = {"c2b": "c2"}.get(clause, clause)
-            if stale == "|focus-dependent-geometry":
+            if stale in ("|focus-dependent-geometry", "|zero-width-column"):
                 path = path.split("[")[0] if path.startswith(("Pile", "Columns")) else path
+            if stale == "|given-width-as-fixed":
+                path, mode = "Padding[w=given]", "fixed"
+            if stale == "|child-replaced":
+                # every container above the decoration shows it too: name the decoration(s) whose child was assigned, not the node
+                sk = swapped_kinds(r)
+                path = "LineBox" if "LineBox" in sk else ("+".join(sorted(sk)) or path.split("[")[0])
+                mode = "-"
         sigkind = best["kind"]
-        if stale and kind_family(sigkind) in ("event-misrouted", "move-misrouted"):
+        if not stale and mode == "fixed" and path.startswith("Padding[w=given]"):
+            # one input shape (a Padding with a given width rendered as a fixed widget): how the child objects to size () is accidental
+            stale = "|given-width-as-fixed"
+            path = "Padding[w=given]"
+            clause = {"c2b": "c2"}.get(clause, clause)
+            sigkind = kind_family(sigkind)
+        if stale in ("|child-replaced", "|given-width-as-fixed"):
+            sigkind = kind_family(sigkind)
+        if stale and kind_family(sigkind) in ("event-misrouted", "move-misrouted", "cursor-not-on-requested-row"):
             # which wrong cell a stale layout happens to hit (none / neighbour / shifted col or row) is an accident of the sizes
             sigkind = kind_family(sigkind)
         sig = f"C09|{clause}|{sigkind}{stale}|{mode}|{path}"
@@ -1724,6 +1865,19 @@ SEEDS = [
         [6],
     ),
     ({"k": "Pile", "items": [[["pack"], _spy(rows=2)], [["given", 6], {"k": "Filler", "c": _spy(rows=2, frows=1), "valign": "bottom", "height": "pack", "bottom": 1}]], "focus": 0}, [6]),
+    ({"k": "Columns", "items": [[["weight", 1], _spy(rows=1)], [["pack"], {"k": "Empty"}], [["weight", 1], {"k": "Edit", "cap": 0, "len": 3, "pos": 1, "wrap": "any"}]], "div": 2, "focus": 2}, [20]),
+    ({"k": "Columns", "items": [[["given", 4], _spy(rows=2)], [["given", 0], {"k": "Empty"}], [["given", 5], _spy(rows=1, cur=[2, 0])], [["pack"], {"k": "Empty"}], [["weight", 1], _spy(rows=2, cur=[1, 1])]], "div": 1, "focus": 4}, [22]),
+    ({"k": "Columns", "items": [[["pack"], {"k": "Empty"}], [["weight", 1], _spy("box")], [["pack"], {"k": "Empty"}], [["weight", 2], _spy("box", cur=[1, 1])]], "div": 3, "focus": 3}, [16, 3]),
+    ({"k": "Pile", "items": [[["pack"], _spy(rows=1)], [["pack"], {"k": "Overlay", "top": _spy(rows=2), "bottom": _spy("box"), "align": "center", "width": 4, "valign": "middle", "height": "pack", "t": 1, "b": 1}]]}, [10]),
+    ({"k": "Overlay", "top": {"k": "Edit", "cap": 0, "len": 3, "pos": 1, "wrap": "any"}, "bottom": _spy("box"), "align": "left", "width": ["relative", 60], "valign": "top", "height": "pack", "l": 1, "b": 1}, [10]),
+    ({"k": "Overlay", "top": _spy("box"), "bottom": _spy("box"), "align": "right", "width": 3, "valign": "middle", "height": 2, "l": 1, "t": 1}, [9]),
+    ({"k": "Overlay", "top": _spy(rows=2), "bottom": _spy("box"), "align": "center", "width": 4, "valign": "middle", "height": "pack", "l": 1, "r": 1, "t": 1}, []),
+    ({"k": "Overlay", "top": _spy("fixed", cols=3, rows=2), "bottom": _spy("box"), "align": "center", "width": "pack", "valign": "middle", "height": "pack", "l": 1, "b": 1}, []),
+    ({"k": "ListBox", "items": [_spy(rows=1), {"k": "Overlay", "top": _spy(rows=1), "bottom": _spy("box"), "align": "left", "width": 3, "valign": "top", "height": "pack", "r": 2, "b": 1}]}, [8, 6]),
+    ({"k": "Padding", "c": {"k": "Edit", "cap": 0, "len": 3, "pos": 1, "wrap": "any"}, "align": "left", "width": 6, "left": 1, "fixedw": True}, []),
+    ({"k": "Padding", "c": _spy(rows=2, cur=[1, 1]), "align": "center", "width": 4, "left": 1, "right": 2, "fixedw": True}, []),
+    ({"k": "LineBox", "c": {"k": "Edit", "cap": 0, "len": 3, "pos": 1, "wrap": "any"}, "swap": True}, [8]),
+    ({"k": "Pile", "items": [[["pack"], _spy(rows=1, sel=False)], [["pack"], {"k": "LineBox", "c": _spy(rows=1, cur=[1, 0]), "sides": "lr", "swap": True}]]}, [8]),
     ({"k": "BoxAdapter", "c": _spy("box"), "h": 3}, [5]),
     ({"k": "LineBox", "c": _spy()}, [6]),
     ({"k": "GridFlow", "cells": [_spy(), _spy(), _spy()], "cw": 3, "hs": 1, "vs": 1, "align": "center"}, [8]),
